@@ -103,8 +103,16 @@ def series(rng, m_lo, m_hi, xcls=None, ycls=None):
     return x, y, {"m": m, "xcls": xc, "ycls": yc}
 
 
+def huge_size(rng, hi=90001):
+    """sizes of the 'huge' kinds: beyond 2**16 (a day of per-second samples) or, one time in three, between 2**15 and
+    2**16 (a month of per-minute samples) - the window in which a 16-bit index or count still fits unsigned only"""
+    if rng.integers(0, 3) == 0:
+        return int(rng.integers(32769, 65536))
+    return int(rng.integers(66000, hi))
+
+
 def as_container(rng, a, allow=("array", "list", "int", "strided", "readonly", "series", "tuple", "byteswapped", "reversed_view",
-                                 "array.array", "deque")):
+                                 "array.array", "deque", "list_of_numpy_scalars")):
     """Return the same values in another container; integer dtype only when values are integral."""
     kind = allow[int(rng.integers(0, len(allow)))]
     a = np.asarray(a, dtype=float)
@@ -125,6 +133,8 @@ def as_container(rng, a, allow=("array", "list", "int", "strided", "readonly", "
         b = a.copy()
         b.flags.writeable = False
         return b, kind
+    if kind == "list_of_numpy_scalars":      # list(column): the elements keep the column's (possibly narrow) NumPy type
+        return list(np.asarray(a)), kind
     if kind == "tuple":
         return tuple(float(v) for v in a), kind
     if kind == "byteswapped":
